@@ -611,7 +611,7 @@ func TestC12_Files(t *testing.T) {
 		}
 		return
 	}
-	rp.Check(t, 5000, 150000, func(rt *rapid.T) {
+	rp.Check(t, 5000, 150000, property(func(rt *rapid.T) {
 		runFileCase(rt, rec, drawFileCase(rt))
-	})
+	}))
 }
